@@ -29,7 +29,7 @@ from . import common as C
 from . import sched as S
 
 LABELS = ["start", "e70", "e73", "e74", "e75", "e76", "e77", "e78", "e73x",
-          "x81", "x84", "x85", "x86", "x87", "x89", "x90", "x91", "x92", "x93", "x84x"]
+          "x81", "x84", "x85", "x86", "x87", "x89", "x90", "x91", "x92", "x93", "x84x", "ev"]
 DEF_LINE = {"e": 70, "x": 81}
 FUNC = {"e": S.ENTER, "x": S.EXIT}
 
@@ -38,7 +38,8 @@ CLAUSE_TEXT = {
     "gc-on": "the collector is enabled while a call is in flight",
     "ufl": "the underflow branch was taken by balanced clients",
     "count": "counter differs from the number of calls in flight while no thread is inside the guard",
-    "restore": "all calls have returned and the collector flag is not what it was before the first one",
+    "restore": "all calls have returned (guard idle) and the collector flag is not what it was before the first call of "
+               "this busy period (= what the application last set)",
     "uflcount": "number of underflow reports differs from the number of unmatched exits",
     "fl": "in-flight bookkeeping inconsistent with the script position",
     "crash": "a thread died with an unexpected exception inside the guard",
@@ -57,6 +58,8 @@ def label_proj(lab):
         return ["start", "", 0]
     if lab == "Done":
         return ["fin", "", 0]
+    if lab == "ev":
+        return ["ev", "", 0]
     m = re.fullmatch(r"([ex])(\d+)(x?)", lab)
     if not m:
         raise C.MachineryError("unknown label " + lab)
@@ -76,6 +79,7 @@ DRIVERS = {
     "EX": [None, [_C()], [_C(RZ)], [_C(RT)], [_C(RZ, _C())]],
     "EEXX": [None, [_C(_C())], [_C(_C(RZ))], [_C(_C(RT))], [_C(_C(), RZ)], [_C(_C(), RT)], [_C(_C(RZ), _C())]],
     "EXEX": [None, [_C(), _C()], [_C(RZ), _C(RT)]],
+    "EEXXEX": [None, [_C(_C()), _C()], [_C(_C(RZ)), _C(RT)], [_C(_C(), RT), _C(RZ, _C())]],
 }
 
 
@@ -112,10 +116,11 @@ def run_model(name, timeout=600):
     if rc != 0 or st is None or "No error has been found" not in out:
         raise C.MachineryError(f"TLC on GcGuard_{name}.cfg failed (rc={rc}): the line-level model itself violates its "
                                "properties or TLC crashed\n" + out[-3000:])
-    m = re.search(r'<<"SCRIPTS", (.*)>>\s*$', out, re.M)
+    m = re.search(r'<<"SCRIPTS", (.*), (\d+)>>\s*$', out, re.M)
     if not m:
         raise C.MachineryError("SCRIPTS line missing in TLC output")
     scripts = ["".join(s) for s in _tla_value(m.group(1))]
+    flips = int(m.group(2))
     dm = _DEPTH.search(out)
     nodes, edges, roots = {}, [], []
     with open(dot) as f:
@@ -126,6 +131,9 @@ def run_model(name, timeout=600):
                 if lab == "Terminating":
                     continue
                 lm = re.fullmatch(r"(\w+)\((\d+)\)", lab)
+                if lab == "ev":          # the environment process (id = number of threads + 1)
+                    edges.append((em.group(1), "ev", len(scripts) + 1, em.group(2)))
+                    continue
                 if not lm:
                     raise C.MachineryError("edge label " + lab)
                 edges.append((em.group(1), lm.group(1), int(lm.group(2)), em.group(2)))
@@ -153,9 +161,9 @@ def run_model(name, timeout=600):
     proj = {}
     for nid, d in nodes.items():
         proj[nid] = {"active": d["active"], "saved": d["saved"], "gc": d["gc"], "lock": d["lock"], "ufl": d["ufl"],
-                     "pos": d["pos"], "inflight": d["inflight"], "ins": d["ins"],
+                     "pos": d["pos"], "inflight": d["inflight"], "ins": d["ins"], "base": d["base"], "flips": d["flips"],
                      "pc": [label_proj(x) for x in d["pc"]], "labels": d["pc"], "gc0": d["gc0"]}
-    return {"name": name, "scripts": scripts, "nodes": proj, "edges": edges, "out": out_e, "roots": sorted(roots),
+    return {"name": name, "scripts": scripts, "flips": flips, "nodes": proj, "edges": edges, "out": out_e, "roots": sorted(roots),
             "states": st["distinct"], "generated": st["generated"], "transitions": len(edges),
             "depth": int(dm.group(1)) if dm else 0}
 
@@ -301,7 +309,7 @@ def validator_selftest(files):
     k = next(i for i, s in enumerate(base["st"]) if any(x > 0 for x in s["fl"]))
     cases = []
     for field, idx, val, clause in (("gc", k, True, "gc-on"), ("act", k, -1, "neg"),
-                                    ("gc", len(base["st"]) - 1, not base["cfg"]["gc0"], "restore")):
+                                    ("gc", len(base["st"]) - 1, not base["st"][-1]["base"], "restore")):
         c = json.loads(json.dumps(base))
         c["st"][idx][field] = val
         cases.append((c, clause, idx + 1))
@@ -329,29 +337,38 @@ def validator_selftest(files):
 # tiers
 # ----------------------------------------------------------------------------------------------------------------
 def tier_plan(tier):
-    """model configs: (cfg name, max plain paths or None=all, condom paths: number or 'all' combos)"""
+    """model configs: (cfg name, max plain paths or None=all, condom paths: number or 'all' combos).
+    The number of environment flips is part of the .cfg (MaxFlips)."""
     if tier == "quick":
-        return [("EX", None, 40), ("EEXX", None, 40), ("EX_EX", None, 150), ("EEXX_EX", None, 300),
+        return [("EX", None, 40), ("EEXX", None, 40), ("EXEX", None, 40), ("EEXXEX", None, 40),
+                ("EX_EX", None, 150), ("EEXX_EX", None, 300), ("EXEX_EX", None, 300),
                 ("EEXX_EX_EX", 1000, 300), ("XEXX", None, 0), ("XEX_X", None, 0)]
-    return [("EX", None, "all"), ("EEXX", None, "all"), ("EX_EX", None, "all"), ("EEXX_EX", None, "all"),
-            ("EX_EX_EX", None, 3000), ("EEXX_EX_EX", None, 3000), ("XEXX", None, 0), ("XEX_X", None, 0)]
+    return [("EX", None, "all"), ("EEXX", None, "all"), ("EXEX", None, "all"), ("EEXXEX", None, "all"),
+            ("EX_EX", None, "all"), ("EEXX_EX", None, "all"), ("EXEX_EX", None, "all"), ("EXEX_EXEX", None, 3000),
+            ("EEXXEX_EX", None, 3000), ("EX_EX_EX", None, 3000), ("EEXX_EX_EX", None, 3000), ("XEXX", None, 0),
+            ("XEX_X", None, 0)]
 
 
 def explore_plan(tier):
-    """fallback exploration: (scripts, drivers, nparts)"""
+    """fallback exploration: (scripts, drivers, nparts, environment flips)"""
     P = []
-    for scripts in (["EX"], ["EEXX"], ["XEXX"], ["EX", "EX"], ["EEXX", "EX"], ["XEX", "X"]):
-        P.append((scripts, None, 1))
-    P.append((["EX", "EX", "EX"], None, 4))
-    P.append((["EX"], [[_C(RZ)]], 1))
-    P.append((["EEXX"], [[_C(_C(RT))]], 1))
-    P.append((["EX", "EX"], [[_C(RZ)], [_C()]], 1))
-    P.append((["EEXX", "EX"], [[_C(_C(RZ))], [_C(RT)]], 1))
-    P.append((["EEXX", "EX"], [[_C(_C(), RT)], None], 1))
+    for scripts, fl in ((["EX"], 2), (["EEXX"], 2), (["EXEX"], 2), (["EEXXEX"], 2), (["XEXX"], 2), (["EX", "EX"], 1),
+                        (["EEXX", "EX"], 1), (["XEX", "X"], 1)):
+        P.append((scripts, None, 1, fl))
+    P.append((["EXEX", "EX"], None, 2, 1))
+    P.append((["EX", "EX", "EX"], None, 6, 1))
+    P.append((["EX"], [[_C(RZ)]], 1, 1))
+    P.append((["EEXX"], [[_C(_C(RT))]], 1, 1))
+    P.append((["EXEX"], [[_C(RZ), _C()]], 1, 2))
+    P.append((["EX", "EX"], [[_C(RZ)], [_C()]], 1, 1))
+    P.append((["EEXX", "EX"], [[_C(_C(RZ))], [_C(RT)]], 1, 1))
+    P.append((["EEXX", "EX"], [[_C(_C(), RT)], None], 1, 1))
     if tier == "thorough":
-        P.append((["EEXX", "EX", "EX"], None, 12))
-        P.append((["EEXX", "EX"], [[_C(_C(RZ), _C())], [_C(RZ, _C())]], 1))
-        P.append((["EX", "EX", "EX"], [[_C(RZ)], [_C()], [_C(RT)]], 4))
+        P.append((["EEXX", "EX", "EX"], None, 14, 1))
+        P.append((["EXEX", "EXEX"], None, 4, 1))
+        P.append((["EEXXEX", "EX"], None, 4, 1))
+        P.append((["EEXX", "EX"], [[_C(_C(RZ), _C())], [_C(RZ, _C())]], 1, 1))
+        P.append((["EX", "EX", "EX"], [[_C(RZ)], [_C()], [_C(RT)]], 6, 1))
     return P
 
 
@@ -376,7 +393,7 @@ def check(pid, tier, regen=False):
     for G in graphs:
         for e in G["edges"]:
             model_cov[e[1]] = model_cov.get(e[1], 0) + 1
-        per_cfg[G["name"]] = {"scripts": "|".join(G["scripts"]), "states": G["states"], "transitions": G["transitions"],
+        per_cfg[G["name"]] = {"scripts": "|".join(G["scripts"]), "env_flips": G["flips"], "states": G["states"], "transitions": G["transitions"],
                               "generated": G["generated"], "depth": G["depth"], "initial_states": len(G["roots"])}
     never = [lab for lab in LABELS if model_cov.get(lab, 0) == 0]
     if never or set(model_cov) - set(LABELS):
@@ -415,7 +432,7 @@ def check(pid, tier, regen=False):
         nsteps = sum(len(p["steps"]) for p in todo)
         nb = max(1, min(C.NPROC, nsteps // 6000 + 1))
         for ch in _chunks(todo, nb):
-            jobs.append({"kind": "replay", "scripts": G["scripts"], "graph": gfile, "paths": ch})
+            jobs.append({"kind": "replay", "scripts": G["scripts"], "flips": G["flips"], "graph": gfile, "paths": ch})
             jobmeta.append((G, ch))
     t1 = time.time()
     results = run_jobs(jobs, timeout=600 if tier == "quick" else 1500)
@@ -443,7 +460,9 @@ def check(pid, tier, regen=False):
                 drifts.append({"config": "|".join(G["scripts"]), "gc0": p["gc0"], "drivers": p.get("drivers"),
                                "schedule_prefix": [s[0] for s in p["steps"][:r["steps"] + 1]], **r["drift"]})
             elif sample is None and len(G["scripts"]) > 1:
-                sample = {"config": "|".join(G["scripts"]), "gc0": p["gc0"], "schedule": [s[0] for s in p["steps"]],
+                sample = {"config": "|".join(G["scripts"]), "gc0": p["gc0"], "env_flips": G["flips"],
+                          "note": "thread id %d = environment flip of the collector flag" % (len(G["scripts"]) + 1),
+                          "schedule": [s[0] for s in p["steps"]],
                           "labels": p["labels"]}
         if len(res["results"]) != len(ch):
             drifts.append({"config": "|".join(G["scripts"]), "what": "worker stopped after a hang",
@@ -474,10 +493,10 @@ def check(pid, tier, regen=False):
                 explore["phases"].append(phase + ": skipped, a rejection is already established")
                 break
             ejobs, emeta = [], []
-            for scripts, drivers, nparts in sel:
+            for scripts, drivers, nparts, nflips in sel:
                 for gc0 in (True, False):
                     for part in range(nparts):
-                        ejobs.append({"kind": "explore", "scripts": scripts, "gc0": gc0, "drivers": drivers,
+                        ejobs.append({"kind": "explore", "scripts": scripts, "gc0": gc0, "drivers": drivers, "flips": nflips,
                                       "nparts": nparts, "part": part, "split_depth": 6 if nparts > 1 else 0,
                                       "budget_s": 45 if tier == "quick" else 900})
                         emeta.append(("|".join(scripts), gc0, drivers))
@@ -504,13 +523,13 @@ def check(pid, tier, regen=False):
                                + json.dumps({"cfg": tr["cfg"], "drv": tr["drv"], "sched": tr["sched"]})[:1500])
     best = {}
     for tr, clause, k in bad:
-        key = (clause, json.dumps(tr["cfg"], sort_keys=True), tr["drv"])
+        key = (clause, json.dumps(tr["cfg"]["scripts"]), tr["drv"])
         if key not in best or len(tr["sched"]) < len(best[key][0]["sched"]):
             best[key] = (tr, clause, k)
     for (tr, clause, k) in sorted(best.values(), key=lambda x: (len(x[0]["sched"]), x[1])):
         R.add_violation({"property": pid, "clause": clause, "meaning": CLAUSE_TEXT.get(clause, clause),
                          "state_index": k, "scripts": ["".join(s) for s in tr["cfg"]["scripts"]],
-                         "gc0": tr["cfg"]["gc0"], "drivers": json.loads(tr["drv"]) if tr["drv"] else None,
+                         "gc0": tr["cfg"]["gc0"], "flips": tr["cfg"].get("flips", 0), "drivers": json.loads(tr["drv"]) if tr["drv"] else None,
                          "schedule": tr["sched"], "failing_state": tr["st"][k - 1] if 0 < k <= len(tr["st"]) else None,
                          "trace": tr["st"]})
 
@@ -551,7 +570,9 @@ def check(pid, tier, regen=False):
         "_enter_z3/_exit_z3 but one source line (e.g. `_active_z3_calls += 1`) is atomic, as in the PlusCal model",
         "only _gc_lock blocks; gc/log/_gc_lock are the module globals looked up at call time",
         "condom is driven off the main thread, so install_sigint_handler() returns False: SIGINT handling is not covered",
-        "at most 3 threads, nesting depth 2",
+        "at most 3 threads, nesting depth 2, at most 2 busy periods per thread",
+        "the application changes the collector flag itself only while the guard is idle (environment step `ev`, 1-2 per "
+        "behaviour); a flip during a busy period is outside the property (nothing well-defined to restore)",
     ]
     if drifts:
         R.notes.append("SPEC-DRIFT: the code does not follow spec/GcGuard.tla line by line; verdict from the harness's "
@@ -563,7 +584,8 @@ def replay(pid, path):
     """re-run the schedule of a replay file on the current tree and re-validate it with TLC (TraceGc.tla)"""
     with open(path) as f:
         v = json.load(f)
-    job = {"kind": "run", "scripts": v["scripts"], "gc0": v["gc0"], "drivers": v.get("drivers"), "sched": v["schedule"],
+    job = {"kind": "run", "scripts": v["scripts"], "gc0": v["gc0"], "flips": v.get("flips", 0),
+           "drivers": v.get("drivers"), "sched": v["schedule"],
            "check_dead": bool(v.get("trace") and v["trace"][-1].get("dead"))}
     (res, tf), = run_jobs([job], timeout=120)
     n, bad = validate_traces([tf])
